@@ -20,6 +20,7 @@ unacc := {|r| r.l if r != nil}
 nn := Nil.bear({reason: "none"}).new
 kvOf := {|x| ["k#{x.id}", x.f]}
 wrappedErr := 1.try./(0).err
+kvOf2 := {|x| [[x.id % 2], x.f]}
 `
 
 // behaviours of the callee at one element
@@ -44,6 +45,10 @@ func c04elem(k int, beh string) string {
 	}
 	switch beh {
 	case bVal:
+		if (k+c04nilAlt)%2 == 1 {
+			// an element that answers unknown names through `_missing` is an element like any other
+			return fmt.Sprintf(`{id: %d, f: m{"C%d".p; %d}, f2: m{|t| "C%d".p; [%d, t]}, _missing: m{|name| "MISSING-CALLED".p; name}}`, k, k, 100+k, k, 100+k)
+		}
 		return fmt.Sprintf(`{id: %d, f: m{"C%d".p; %d}, f2: m{|t| "C%d".p; [%d, t]}}`, k, k, 100+k, k, 100+k)
 	case bNil:
 		return fmt.Sprintf(`{id: %d, f: m{"C%d".p; nil}, f2: m{|t| "C%d".p; nil}}`, k, k, k)
@@ -346,6 +351,20 @@ func runC04(w *fw.W) {
 							judge("@([])", "literal", recv+`@([]){|x| ["k#{x.id}", x.f]}`, cm, "["+strings.Join(pairs, ", ")+"]")
 							judge("@({})", "literal", recv+`@({}){|x| ["k#{x.id}", x.f]}`, cm, "{"+strings.Join(objp, ", ")+"}")
 							judge("@(%{})", "literal", recv+`@(%{}){|x| ["k#{x.id}", x.f]}`, cm, "%{"+strings.Join(mapp, ", ")+"}")
+							// collected pairs with equal non-scalar keys: the map keeps the first of them
+							if len(behs) >= 2 {
+								var firsts []string
+								seenK := map[int]bool{}
+								for k := range behs {
+									if !seenK[k%2] {
+										seenK[k%2] = true
+										firsts = append(firsts, fmt.Sprintf("[%d]: %d", k%2, 100+k))
+									}
+								}
+								for _, f := range []struct{ form, call string }{{"literal", `{|x| [[x.id % 2], x.f]}`}, {"var", "^kvOf2"}} {
+									judge("@(%{}) with equal non-scalar keys", f.form, recv+`@(%{})`+f.call, cm, "%{"+strings.Join(firsts, ", ")+"}")
+								}
+							}
 							// non-empty containers: the argument's own content comes first and, for obj/map, keeps its keys
 							// (it is the initial content the results are digested into; literals are first-occurrence-wins)
 							objp2 := append([]string{`"k0": 999`}, objp[min(1, len(objp)):]...)
